@@ -191,7 +191,7 @@ def is_broadcastable(*args: t.Sequence[int]) -> bool:
         return False
 
 
-PREV, NEXT, KEY, RESULT = 0, 1, 2, 3
+PREV, NEXT, KEY, RESULT, ARGS = 0, 1, 2, 3, 4
 
 class KeyCache(t.Generic[P, T]):
     _missing = object()
@@ -203,7 +203,7 @@ class KeyCache(t.Generic[P, T]):
         self.cache: t.Dict[t.Tuple[t.Tuple[t.Any, ...], t.Tuple[t.Tuple[str, t.Any], ...]], t.Any] = {}
 
         self._root: t.List[t.Any] = []
-        self._root[:] = [self._root, self._root, None, None]
+        self._root[:] = [self._root, self._root, None, None, None]
         self._lock = RLock()
 
         self.full = self.maxsize == 0
@@ -211,11 +211,12 @@ class KeyCache(t.Generic[P, T]):
     def __call__(self, *args: P.args, **kwargs: P.kwargs) -> T:
         if self.maxsize is None:
             key = self.key_f(*args, **kwargs)
-            result = self.cache.get(key, self._missing)
-            if result is not self._missing:
-                return t.cast(T, result)
+            entry = self.cache.get(key, self._missing)
+            if entry is not self._missing:
+                return t.cast(T, entry[0])
             result = self.inner_f(*args, **kwargs)
-            self.cache[key] = result
+            # keep the arguments alive with the entry: keys may be built from their id()
+            self.cache[key] = (result, args, kwargs)
             return result
 
         key = self.key_f(*args, **kwargs)
@@ -223,7 +224,7 @@ class KeyCache(t.Generic[P, T]):
             link = self.cache.get(key, None)
             if link is not None:
                 # extract this link
-                prev_link, next_link, _key, result = link
+                prev_link, next_link, _key, result, _args = link
                 prev_link[NEXT] = next_link
                 next_link[PREV] = prev_link
 
@@ -244,16 +245,17 @@ class KeyCache(t.Generic[P, T]):
                 oldroot = self._root
                 oldroot[KEY] = key
                 oldroot[RESULT] = result
+                oldroot[ARGS] = (args, kwargs)  # keep the arguments alive: keys may be built from their id()
 
                 self._root = oldroot[NEXT]
                 oldkey = self._root[KEY]
                 oldresult = self._root[RESULT]  # type: ignore # noqa: F841 (we want to keep this around for a bit)
-                self._root[KEY] = self._root[RESULT] = None
+                self._root[KEY] = self._root[RESULT] = self._root[ARGS] = None
                 del self.cache[oldkey]
                 self.cache[key] = oldroot
             else:
                 last = self._root[PREV]
-                link = [last, self._root, key, result]
+                link = [last, self._root, key, result, (args, kwargs)]
                 last[NEXT] = self._root[PREV] = self.cache[key] = link
                 self.full = (len(self.cache) >= self.maxsize)
         return result
